@@ -540,3 +540,91 @@ def c17_decwidth(F, R):
         R.ok("decimal", detail=f"decimal magnitude parsed as {t}")
     else:
         R.bad("decimal", f"the decimal magnitude is parsed as `{t}` (max {tr[1] if tr else '?'}) after the sign was stripped: 2147483648 does not fit, so `-2147483648` is rejected although it is a 32-bit value", loc(decs[0]))
+
+
+ONE_SHOT = {"strip_prefix", "starts_with"}
+MULTI = {"trim_start_matches", "trim_left_matches", "trim_matches", "trim_end_matches", "trim_right_matches", "replace", "replacen",
+         "split", "rsplit", "splitn", "rsplitn", "split_terminator", "matches", "rmatches", "contains", "find", "rfind", "strip_suffix", "ends_with",
+         "split_once", "rsplit_once", "match_indices"}
+
+
+@rule("C17", "C17.e.one-sign-only", floor=3)
+def c17_sign(F, R):
+    """the optional minus sign is removed by a one-shot operation, and a parser that itself accepts a sign (signed parse / from_str_radix) only sees text already tested not to start with '-': `--5` / `0x-1` are malformed, not numbers"""
+    from .p_parse import parent_map
+    n_ops = 0
+    for p in sorted(_imm_fns(F)):
+        f = F.fns[p]
+        if "hir" not in f:
+            continue
+        name = ("CsrImm" if "CsrImm" in p else "Imm") + "::" + short(p.split("::{closure")[0])
+        body = f["hir"]["value"]
+        pm = parent_map(body)
+        for m in walk(body, pats=False):
+            if m.get("k") != "MethodCall" or not m["args"]:
+                continue
+            if not (declared_callee(m) or callee_of(m) or "").startswith("core::str::<impl str>::") and "<impl str>" not in (callee_of(m) or ""):
+                continue
+            a = lit_value(m["args"][0])
+            if not (isinstance(a, str) and "-" in a):
+                continue
+            n_ops += 1
+            key = f"{name}|{m['name']}({a!r})"
+            if m["name"] in ONE_SHOT:
+                R.ok(key, detail=f"{name}: `{m['name']}({a!r})` tests/removes at most one sign", where=loc(m))
+            elif m["name"] in MULTI:
+                R.bad(key, f"{name}: `{m['name']}({a!r})` acts on every '-' it finds, not on one optional sign: `--5` or `---0x10` are read as numbers instead of being rejected", loc(m))
+            else:
+                R.bad(key, f"UNCLASSIFIED: {name}: `{m['name']}({a!r})` is not a known one-shot sign operation", loc(m))
+        # sign-accepting parsers
+        for m in walk(body, pats=False):
+            target = None
+            if m.get("k") == "MethodCall" and m["name"] == "parse":
+                t = (m.get("gargs") or ["?"])[-1]
+                if re.fullmatch(r"i\d+|isize|f32|f64", t) or True:
+                    target, X = t, ekey(m["recv"])
+            elif m.get("k") == "Call" and short(callee_of(m) or "") == "from_str_radix":
+                mm = re.search(r"<impl (\w+)>::from_str_radix", callee_of(m))
+                t = mm.group(1) if mm else "?"
+                if not t.startswith("u"):
+                    target, X = t, ekey(m["args"][0])
+            if target is None:
+                continue
+            key = f"{name}|guard|{short(callee_of(m) or m.get('name'))}::<{target}>"
+            guarded = False
+            x = m
+            while id(x) in pm and not guarded:
+                par = pm[id(x)]
+                if par.get("k") == "If" and par.get("else") is x and _neg_guard(par, X):
+                    guarded = True
+                if par.get("k") == "Block":
+                    for st in par.get("stmts") or []:
+                        e = st.get("e") or st.get("init") if isinstance(st, dict) else None
+                        if st is x or (isinstance(st, dict) and (st.get("e") is x or st.get("init") is x)):
+                            break
+                        if isinstance(st, dict) and st.get("k") == "Let" and any(b.get("name") == X for b in walk(st["pat"]) if b.get("k") == "PBinding"):
+                            guarded = False
+                        g = peel(st.get("e")) if isinstance(st, dict) and st.get("e") else None
+                        if g and g.get("k") == "If" and _neg_guard(g, X, must_return=True):
+                            guarded = True
+                x = par
+            if guarded:
+                R.ok(key, detail=f"{name}: `{X}` reaches the sign-accepting parser {target} only after `{X}.starts_with('-')` was rejected", where=loc(m))
+            else:
+                R.bad(key, f"{name}: the text `{X}` handed to the {target} parser (which accepts its own leading '-') is not first tested for a residual '-': `--5` parses as a number", loc(m))
+    if n_ops < 3:
+        R.bad("coverage", f"only {n_ops} sign operations found in the literal parsers")
+
+
+def _neg_guard(iff, X, must_return=False):
+    c = iff["cond"]
+    while c.get("k") in ("DropTemps", "Use"):
+        c = c["e"]
+    c = peel(c)
+    if not (c.get("k") == "MethodCall" and c["name"] == "starts_with" and ekey(c["recv"]) == X and c["args"] and lit_value(c["args"][0]) == "-"):
+        return False
+    t = iff["then"]
+    errs = [n for n in walk(t, pats=False) if n.get("k") == "Call" and short(callee_of(n) or "") == "Err"]
+    oks = [n for n in walk(t, pats=False) if n.get("k") == "Call" and short(callee_of(n) or "") == "Ok"]
+    rets = [n for n in walk(t, pats=False) if n.get("k") == "Ret"]
+    return bool(errs) and not oks and (bool(rets) or not must_return)
